@@ -58,6 +58,7 @@ func init() {
 		"math.Frexp":                     modelFrexp,
 		"sort.SearchFloat64s":            modelSearchFloat64s,
 		"slices.Clone":                   modelSlicesClone,
+		"slices.Grow":                    modelSlicesGrow,
 		"time.Now":                       modelTimeNow,
 		"time.Since":                     modelTimeSince,
 		"(time.Time).IsZero":             modelTimeIsZero,
@@ -800,4 +801,24 @@ func modelSortStableFunc(f *Frame, st *State, cc *ssa.CallCommon, args []Val, rt
 	st.heapA[srt] = e.define("ha", e.heapASort(srt), fmt.Sprintf("(store %s (s.arr %s) %s)", h, xs, na))
 	e.sortSrc = src
 	return Val{T: rt}
+}
+
+// slices.Grow(s, n): "increases the slice's capacity, if necessary, to guarantee space for another n elements. After Grow(n),
+// at least n elements can be appended to the slice without another allocation. If n is negative or too large to allocate the
+// memory, Grow panics." Same length and elements; either the same slice (enough capacity) or a fresh backing array.
+func modelSlicesGrow(f *Frame, st *State, cc *ssa.CallCommon, args []Val, rt types.Type, pos token.Pos) Val {
+	e := f.e
+	s, n := args[0].S, e.idxTerm(args[1])
+	e.check(f, st, "no-panic.grow", "slices.Grow: negative count", "(>= "+n+" 0)", pos)
+	sl := rt.Underlying().(*types.Slice)
+	srt := e.sortOf(sl.Elem())
+	h := e.getHeapA(st, srt)
+	fits := e.define("growfits", "Bool", fmt.Sprintf("(<= (+ (s.len %s) %s) (s.cap %s))", s, n, s))
+	arr := e.alloc(st)
+	na := e.freshConst("arr", "(Array Int "+srt+")")
+	e.assume("true", fmt.Sprintf("(forall ((q.i Int)) (! (=> (and (<= 0 q.i) (< q.i (s.len %s))) (= (select %s q.i) (select (select %s (s.arr %s)) (+ (s.off %s) q.i)))) :pattern ((select %s q.i))))", s, na, h, s, s, na))
+	cp := e.freshConst("cap", "Int")
+	e.assume("true", fmt.Sprintf("(and (>= %s (+ (s.len %s) %s)) (<= %s 4611686018427387904))", cp, s, n, cp))
+	st.heapA[srt] = e.define("ha", e.heapASort(srt), sIte(fits, h, fmt.Sprintf("(store %s %s %s)", h, arr, na)))
+	return Val{T: rt, S: e.define("grown", "Slice", sIte(fits, s, fmt.Sprintf("(mk-slice %s 0 (s.len %s) %s)", arr, s, cp)))}
 }
